@@ -21,6 +21,7 @@ Unit syntax: ordinary Verus text, copied verbatim, interleaved with directives:
      //@spec                      following lines go between signature and body
      //@loop <n>                  following lines go before the '{' of the n-th loop (source order, 1-based)
      //@afterloop <n>             following lines go right after the closing '}' of the n-th loop
+     //@loopend <n>               following lines go at the end of the n-th loop's body (before its closing '}')
      //@bodystart                 following lines go right after the body's opening '{'
      //@before <n> "<substr>"     (a substr starting with ^ matches the n-th line that *starts* with the rest) following lines go before the line containing the n-th occurrence of substr
      //@after  <n> "<substr>"     ... after the *statement line* containing it
@@ -250,7 +251,7 @@ def weave(unit_path, repo, verif_root, vacuity=False):
             relfile, selector = relfile.strip(), selector.strip()
             i += 1
             opts = {"as": None, "ret": None, "pub": False, "attrs": False, "subs": [], "noauto": False,
-                    "sigonly": False, "external_body": False, "spec": [], "loops": {}, "afterloops": {}, "anchors": [], "hoist": [], "replace_body": False, "assumed_from": None, "derive_keep": None}
+                    "sigonly": False, "external_body": False, "spec": [], "loops": {}, "afterloops": {}, "loopends": {}, "anchors": [], "hoist": [], "replace_body": False, "assumed_from": None, "derive_keep": None}
             while i < len(lines):
                 t = lines[i].strip()
                 if t == "//@end":
@@ -308,6 +309,9 @@ def weave(unit_path, repo, verif_root, vacuity=False):
                 elif d.startswith("afterloop "):
                     blk, i = _read_block(lines, i)
                     opts["afterloops"][int(d[10:].strip())] = blk
+                elif d.startswith("loopend "):
+                    blk, i = _read_block(lines, i)
+                    opts["loopends"][int(d[8:].strip())] = blk
                 elif d.startswith("before ") or d.startswith("after "):
                     mt = re.match(r'(before|after)\s+(\d+)\s+"(.*)"\s*$', d)
                     if not mt:
@@ -451,8 +455,12 @@ def _do_extract_impl(repo, relfile, selector, opts, sources, log, extracted, len
     # insertion points into body
     inserts = []  # (pos, text, part)
     mb = mask(body)
-    if opts["loops"] or opts["afterloops"]:
+    if opts["loops"] or opts["afterloops"] or opts["loopends"]:
         loops = find_loops(body, mb)
+        for n, blk in opts["loopends"].items():
+            if n < 1 or n > len(loops):
+                raise LostAnchor("%s %s: loop %d not found (%d loops)" % (where, name, n, len(loops)))
+            inserts.append((match_close(mb, loops[n - 1][1]), "\n" + "\n".join(blk) + "\n", "loopend%d" % n))
         for n, blk in opts["afterloops"].items():
             if n < 1 or n > len(loops):
                 raise LostAnchor("%s %s: loop %d not found (%d loops)" % (where, name, n, len(loops)))
